@@ -70,11 +70,14 @@ pub fn main(args: &[String]) -> i32 {
 	let count: u64 = args[1].parse().unwrap();
 	let mut out = Out::new(&args[2]);
 	let dir = std::path::PathBuf::from(&args[2]).join("db");
-	let mut rng = Rng::new(seed ^ 0xC05);
 	let mut oracle = String::new();
 	let mut dist: BTreeMap<String, u64> = BTreeMap::new();
 	let mut nontrivial = 0u64;
-	for _ in 0..count {
+	for case_no in 0..count {
+		let mut rng = crate::util::case_rng(seed ^ 0xC05, case_no);
+		if crate::util::skip_case(case_no) {
+			continue
+		}
 		let _ = std::fs::remove_dir_all(&dir);
 		let two_cols = rng.chance(1, 2);
 		// same-size mode: few groups, every value 48 bytes, always_flush: the same slots are rewritten in place
